@@ -95,6 +95,10 @@ structure RawStep (α : Type) where
   term : Bool
   trunc : Bool
   resetObs : List α
+  /-- what the info dict the env returns *already* holds under `"terminal_observation"` (`none`: nothing / `None`).
+  An env that reuses one dict object for its whole lifetime still carries the terminal observation the VecEnv
+  wrote into it at the end of the previous episode. -/
+  staleTerm : Option (List α) := none
 
 def RawStep.done (r : RawStep α) : Bool := r.term || r.trunc
 
@@ -113,12 +117,12 @@ structure VecOut (α : Type) where
 
 /-- `DummyVecEnv.step_wait`: `done = terminated or truncated`, `TimeLimit.truncated = truncated and not
 terminated`, on `done` the observation goes to `info["terminal_observation"]` and the reset observation is
-returned in its place. -/
+returned in its place; otherwise the info dict is the env's own, with whatever it already held. -/
 def dummyStep (raws : List (RawStep α)) : VecOut α :=
   { obs := raws.map fun r => if r.done then r.resetObs else r.obs
     rews := raws.map (·.rew)
     dones := raws.map (·.done)
-    infos := raws.map fun r => ⟨if r.done then some r.obs else none, r.trunc && !r.term⟩ }
+    infos := raws.map fun r => ⟨if r.done then some r.obs else r.staleTerm, r.trunc && !r.term⟩ }
 
 /-- `VecNormalize` statistics as they are when a batch is normalised: per coordinate `(mean, sqrt(var+eps))`,
 `none` for a coordinate that is not normalised (`norm_obs=False`, key outside `norm_obs_keys`);
@@ -159,6 +163,12 @@ def Normalizer.normRew (z : Normalizer α) (r : α) : α :=
   | none => r
   | some s => clip (r / s) (-z.clipRew) z.clipRew
 
+/-- a wrapper's loop `for idx, done in enumerate(dones): if not done: continue; infos[idx]["terminal_observation"] = f(…)`:
+only the infos of finished envs are touched -/
+def mapTerm (f : List α → List α) : List Bool → List (Info α) → List (Info α)
+  | d :: ds, i :: is => (if d then { i with terminalObs := i.terminalObs.map f } else i) :: mapTerm f ds is
+  | _, is => is
+
 /-- what `VecNormalize.step_wait` returns, and what it keeps for `get_original_obs/reward` -/
 structure VNOut (α : Type) where
   out : VecOut α
@@ -166,20 +176,20 @@ structure VNOut (α : Type) where
   oldRew : List α
 
 /-- `VecNormalize.step_wait` after the statistics update: `old_obs`, `old_reward` keep the raw batch; the
-returned observations, rewards and the terminal observations in the infos are normalised. -/
+returned observations, rewards and the terminal observations in the infos of finished envs are normalised. -/
 def vnStep (z : Normalizer α) (vo : VecOut α) : VNOut α :=
   { out :=
       { obs := vo.obs.map z.normObs
         rews := vo.rews.map z.normRew
         dones := vo.dones
-        infos := vo.infos.map fun i => { i with terminalObs := i.terminalObs.map z.normObs } }
+        infos := mapTerm z.normObs vo.dones vo.infos }
     oldObs := vo.obs
     oldRew := vo.rews }
 
 /-- an observation wrapper (`VecTransposeImage.step_wait`): the observations and the terminal observations in
-the infos are transformed alike, everything else passes through -/
+the infos of finished envs are transformed alike, everything else passes through -/
 def postStep (f : List α → List α) (vo : VecOut α) : VecOut α :=
-  { vo with obs := vo.obs.map f, infos := vo.infos.map fun i => { i with terminalObs := i.terminalObs.map f } }
+  { vo with obs := vo.obs.map f, infos := mapTerm f vo.dones vo.infos }
 
 /-! ## `_store_transition` and the loop body -/
 
